@@ -593,7 +593,7 @@ pub fn run(eng: &mut Engine) {
         "the entry block of a non-empty sub is blocks[0] (into_ir_sub_term establishes this before normalization)".into(),
         "invariant (4) is evaluated on the output: a callee is non-returning iff it is an extern symbol flagged no_return or a sub (other than the artificial sink sub) that contains no Return after normalization".into(),
     ];
-    let cases = eng.tier.pick(400_000u64, 8_000_000u64);
+    let cases = eng.tier.pick(1_000_000u64, 8_000_000u64);
     eng.random(
         "raw-programs",
         RandomSpec { cases, max_tape: 300 },
